@@ -128,9 +128,9 @@ class ComparamInstance:
             )
             return None
 
-        # trailing values may be omitted
+        # trailing values may be omitted, the others may be left empty
         result = value_list[idx] if idx < len(value_list) else None
-        if result is None and isinstance(subparam, (Comparam, ComplexComparam)):
+        if (result is None or result == "") and isinstance(subparam, (Comparam, ComplexComparam)):
             result = subparam.physical_default_value
         if not isinstance(result, str):
             odxraise()
